@@ -195,4 +195,16 @@ theorem sigNodup_of_check (defs : List Def) (h : nodupCheck defs = true) : SigNo
     exact nodup_of_nodupNatL _ this
   · rw [sigOfTable_ge defs t ht] at hs; cases hs
 
+
+/-! ### conversion is compositional -/
+
+theorem normTuple_pats_eq (sig : Sig) (w : Bool) : ∀ (ps : List SPat) (tys : List Nat),
+    ps.length = tys.length →
+    (normTuple sig w ps tys).pats = List.zipWith (fun p t => (normalize sig w p (some t)).pat) ps tys
+  | [], [], _ => by simp [normTuple]
+  | p :: ps, t :: ts, h => by
+    simp [normTuple, normTuple_pats_eq sig w ps ts (by simpa using h)]
+  | [], _ :: _, h => by simp at h
+  | _ :: _, [], h => by simp at h
+
 end SamVerif.Useful
